@@ -305,7 +305,22 @@ def wrapper_contract(chk, fe, name):
         raise AnalysisError(f"{FE}:{name}: unrecognised wrapper around the compiled generator: returns {str(v)[:120]}")
 
 
-def _blocked_batch(ev, out, seed, d1, d2, generator_of, methods):
+def _positive_step(B, consts):
+    import ast as _ast
+    if B.const_value() is not None:
+        return B.const_value() > 0
+    a = B.as_atom()
+    if a and a[0] == "name" and a[1] in consts:
+        v = consts[a[1]]
+        try:
+            val = eval(compile(_ast.Expression(v), "<const>", "eval"), {"__builtins__": {}}) if isinstance(v, (_ast.Constant, _ast.BinOp)) else None
+        except Exception:      # noqa: BLE001
+            val = None
+        return isinstance(val, int) and val > 0
+    return False
+
+
+def _blocked_batch(ev, out, seed, d1, d2, generator_of, methods, consts=None):
     """The batch generated block by block into one array:
 
         pts = np.empty((d1, d2));  for lo in range(seed, seed + d1, B): hi = min(lo + B - 1, seed + d1 - 1); pts[lo - seed : hi - seed + 1] = BATCH(lo, hi, d2)
@@ -333,7 +348,7 @@ def _blocked_batch(ev, out, seed, d1, d2, generator_of, methods):
     B = lp.step
     ok = bool(shape and len(shape) == 2 and shape[0].key() == d1.key() and shape[1].key() == d2.key())
     ok = ok and lp.lo is not None and lp.lo.key() == seed.key() and lp.hi is not None and (lp.hi - seed - d1).is_zero() \
-        and B is not None and B.const_value() is not None and B.const_value() > 0
+        and B is not None and _positive_step(B, consts or {})
     ok = ok and lo_w.key() == i.key() and dim.key() == d2.key()
     ha = hi_w.as_atom()
     ok = ok and bool(ha and ha[0] == "call" and call_name(ha) == "min" and len(ha[2]) == 2
@@ -445,7 +460,7 @@ def r20_5(chk, fe):
         elif ba and ba[0] == "ite":
             okb = False        # the result for a given d2 depends on something else than (seed, d1, d2): reported with the condition
         elif ba and ba[0] == "obj":
-            blk = _blocked_batch(ev, b, seed, d1, d2, generator_of, methods)
+            blk = _blocked_batch(ev, b, seed, d1, d2, generator_of, methods, fe.ctx.consts)
             if blk is None:
                 raise AnalysisError(f"{FE}:quasirandom: unrecognised construction of the batch result: {str(b)[:120]}")
             okb = blk
